@@ -172,6 +172,11 @@ def main(argv=None):
     evp = os.path.join(core.VERIF, 'evidence', f'{pid}.json')
     with open(evp, 'w') as fh:
         json.dump(ev, fh, indent=1, default=core._json_default)
+    if args.tier == 'thorough':
+        # keep the record of the deeper run next to the quick evidence (which the next quick run overwrites)
+        os.makedirs(os.path.join(core.VERIF, 'evidence', 'thorough'), exist_ok=True)
+        with open(os.path.join(core.VERIF, 'evidence', 'thorough', f'{pid}.json'), 'w') as fh:
+            json.dump(ev, fh, indent=1, default=core._json_default)
     print(f'{pid} tier={args.tier} seed={seed}: states={cov["states"]} transitions={cov["transitions"]} '
           f'evaluations={cov["evaluations"]} nontrivial={cov["distinct_nontrivial"]} ood={cov["out_of_domain"]} '
           f'violations={violations} known={sum(len(v) for v in known_hits.values())} '
